@@ -295,7 +295,15 @@ namespace bloch::compiler {
                 if (fn->hasShotsAnnotation) {
                     for (std::unique_ptr<AnnotationNode>& annotation : fn->annotations) {
                         if (annotation && annotation->name == "shots") {
-                            int shotCount = std::stoi(annotation->value);
+                            int shotCount = 0;
+                            try {
+                                shotCount = std::stoi(annotation->value);
+                            } catch (const std::exception&) {
+                                throw BlochError(ErrorCategory::Semantic, annotation->line,
+                                                 annotation->column,
+                                                 "@shots value '" + annotation->value +
+                                                     "' is not a valid shot count");
+                            }
                             merged->shots = {true, shotCount};
                         }
                     }
